@@ -376,15 +376,15 @@ func Check(c *core.Ctx) (map[string]any, []string, error) {
 		if c.Thorough() {
 			depth = 3
 		}
-		runErr = run(fmt.Sprintf("hist-bfs-depth%d", depth), cfg("hist", depth, true), tlc.Opts{Workers: c.Workers, Timeout: 40 * time.Minute})
+		runErr = run(fmt.Sprintf("hist-bfs-depth%d", depth), cfg("hist", depth, true), tlc.Opts{Workers: c.Workers, Timeout: 90 * time.Minute})
 	}
 	// (3) random longer histories
 	if runErr == nil {
 		n, d := 8, 8
 		if c.Thorough() {
-			n, d = 300, 12
+			n, d = 50, 12
 		}
-		runErr = run("hist-simulate", cfg("hist", d, false), tlc.Opts{Workers: 4, Simulate: true, Num: n, Depth: d + 1, Seed: c.Seed, Timeout: 20 * time.Minute})
+		runErr = run("hist-simulate", cfg("hist", d, false), tlc.Opts{Workers: 4, Simulate: true, Num: n, Depth: d + 1, Seed: c.Seed, Timeout: 90 * time.Minute})
 	}
 	close(ch)
 	wg.Wait()
